@@ -436,14 +436,12 @@ func dependsOn(v ssa.Value, pred func(ssa.Value) bool) bool {
 		if !ok {
 			return false
 		}
-		// loads of locals: depend on everything stored to them
+		// loads of locals (or of their fields/elements): depend on everything stored into the local
 		if u, ok := v.(*ssa.UnOp); ok && u.Op == token.MUL {
-			if a, ok := u.X.(*ssa.Alloc); ok {
-				for _, r := range *a.Referrers() {
-					if st, ok := r.(*ssa.Store); ok && st.Addr == a {
-						if rec(st.Val) {
-							return true
-						}
+			if a := rootAlloc(u.X); a != nil {
+				for _, st := range storesInto(a) {
+					if rec(st.Val) {
+						return true
 					}
 				}
 			}
@@ -456,4 +454,51 @@ func dependsOn(v ssa.Value, pred func(ssa.Value) bool) bool {
 		return false
 	}
 	return rec(v)
+}
+
+// rootAlloc follows FieldAddr/IndexAddr chains from an address to the local it points into.
+func rootAlloc(addr ssa.Value) *ssa.Alloc {
+	for {
+		switch x := addr.(type) {
+		case *ssa.Alloc:
+			return x
+		case *ssa.FieldAddr:
+			addr = x.X
+		case *ssa.IndexAddr:
+			addr = x.X
+		default:
+			return nil
+		}
+	}
+}
+
+// storesInto lists every store whose address lies inside local a.
+func storesInto(a *ssa.Alloc) []*ssa.Store {
+	var out []*ssa.Store
+	seen := map[ssa.Value]bool{}
+	var walk func(v ssa.Value)
+	walk = func(v ssa.Value) {
+		if seen[v] || v.Referrers() == nil {
+			return
+		}
+		seen[v] = true
+		for _, r := range *v.Referrers() {
+			switch r := r.(type) {
+			case *ssa.Store:
+				if r.Addr == v {
+					out = append(out, r)
+				}
+			case *ssa.FieldAddr:
+				if r.X == v {
+					walk(r)
+				}
+			case *ssa.IndexAddr:
+				if r.X == v {
+					walk(r)
+				}
+			}
+		}
+	}
+	walk(a)
+	return out
 }
